@@ -222,9 +222,9 @@ def classify(family: str, out: bytes):
 
 
 def _gopher_target(gtype: bytes, sel: bytes, host: bytes, port: int):
-    m = re.match(rb"^/?URL:(.+)$", sel, re.S)
+    m = re.match(rb"^/?URL:(.*)$", sel, re.S)
     if m:
-        return ("url", m.group(1))
+        return ("url", m.group(1))  # (nothing after the colon: a link to the empty URL)
     if host == rig.SERVER_NAME.encode() and port == rig.SERVER_PORT:
         return ("local", sel)
     return ("remote", host, port, gtype, sel)
@@ -298,7 +298,7 @@ def _url_target(url: bytes, wap=False):
     m = re.match(rb"^gopher://([^:/]+):(\d+)/(.)(.*)$", url, re.S)
     if m:
         return ("remote", m.group(1), int(m.group(2)), unquote_to_bytes(m.group(3)), unquote_to_bytes(m.group(4)))
-    if re.match(rb"^[A-Za-z][A-Za-z0-9+.-]*:", url):
+    if re.match(rb"^[A-Za-z][A-Za-z0-9+.-]*:", url) or url == b"":
         return ("url", url)
     if wap:
         if not url.startswith(b"/wap"):
